@@ -629,25 +629,51 @@ def run(ctx):
     cases = ctx.corpus()
     if not ctx.replay:
         cases = [retime(c, ctx.c08_consts) for c in cases] + gen(ctx)
-    import copy
-    for attempt in range(3):
-        snap = (list(ctx.impl_viol), list(ctx.tie_breaks), copy.deepcopy(ctx.cov), set(ctx._nontrivial))
+    # The model is evaluated against a private snapshot of the four compiled libraries it needs: the coq/
+    # directory is shared, and a concurrent check of another property may regenerate gen/Consts.v (and rebuild
+    # Consts.vo) in the middle of a long evaluation, which coqc reports as "inconsistent assumptions".
+    from vpc import core
+    snap = make_snapshot(ctx)
+    old = core.COQ
+    if snap:
+        core.COQ = snap
+    try:
         ctx.pipeline(cases, binary, oracle, model_term, IMPORTS, nontrivial=nontrivial, show=show, shard_size=24,
                      relation="ReplicationFetcher::{add_keys,next_keys_to_fetch,notify_*,set_*} steps accepted by "
                               "Fetcher.step_ok (run_ok init trace)")
-        stale = [t for t in ctx.tie_breaks[len(snap[1]):]
-                 if t[0] == "model-eval" and "inconsistent assumptions" in str(t[2])]
-        if not stale or attempt == 2:
-            break
-        # a concurrent check of another property regenerated gen/Consts.v between our build and the model
-        # evaluation (shared coq/ directory): rebuild our cone and evaluate again
-        ctx.log("model evaluation hit a stale .vo (Consts.v regenerated concurrently); rebuilding and repeating")
-        ctx.impl_viol[:] = snap[0]
-        ctx.tie_breaks[:] = snap[1]
-        ctx.cov.clear()
-        ctx.cov.update(snap[2])
-        ctx._nontrivial = snap[3]
+    finally:
+        core.COQ = old
+        if snap:
+            import shutil
+            shutil.rmtree(snap, ignore_errors=True)
+
+
+def make_snapshot(ctx):
+    """copy lib/Strs, lib/Harness, gen/Consts, model/Fetcher (.vo) taken under the coq lock into a private
+    directory with the same logical layout, and check that they load together"""
+    import os
+    import shutil
+    from vpc import core
+    d = os.path.join(core.CACHE, "c08_eval_%d" % os.getpid())
+    for attempt in range(4):
+        with core.Lock("coq"):
+            shutil.rmtree(d, ignore_errors=True)
+            for sub, names in (("lib", ["Strs", "Harness"]), ("gen", ["Consts"]), ("model", ["Fetcher"])):
+                os.makedirs(os.path.join(d, sub))
+                for n in names:
+                    src = os.path.join(core.COQ, sub, n + ".vo")
+                    if os.path.exists(src):
+                        shutil.copy(src, os.path.join(d, sub, n + ".vo"))
+            os.makedirs(os.path.join(d, "cases"))
+        with open(os.path.join(d, "cases", "probe.v"), "w") as f:
+            f.write("Require Import V.lib.Strs V.lib.Harness V.model.Fetcher.\n")
+        rc, out = core.sh("timeout 120 coqc -noglob -Q . V cases/probe.v", cwd=d, timeout=150)
+        if rc == 0:
+            return d
+        ctx.log("snapshot of the compiled model is not consistent yet (%s); rebuilding" % out.strip()[-200:])
         ctx.coq_make(["props/C08.v"])
+    shutil.rmtree(d, ignore_errors=True)
+    return None
 
 
 def read_consts():
